@@ -7,6 +7,8 @@ order; comment texts are gathered under `comments`; six buckets are always prese
 """
 import json
 
+import os
+
 from vf.gen import scripts as GS
 from vf.gen.corpus import load as load_corpus
 from vf.run import MODES, comments_of, entities, parse
@@ -20,7 +22,7 @@ RULE = ("cases = (script, mode): seeded random mixes of 1..9 statement groups ov
         "comments, every kind adjacent to every other over the run, in all 15 modes; plus the adjacency matrix kind x kind once; plus "
         "corpus scripts (bucket by the flat entity's own shape, since no abstract script exists). Non-trivial = >= 2 entities of >= 2 "
         "kinds; distinct = distinct (script, mode)."
-        " Added after seeded defects: SET with empty values, empty-result scripts, blank comment texts, pool scripts, flat/grouped histories on one object in both orders, the grouped call through parse_from_file.")
+        " Added after seeded defects: SET with empty values, empty-result scripts, blank comment texts, pool scripts, flat/grouped histories on one object in both orders, the grouped call through parse_from_file. the grouped call also with dump=True, dump_path and file_path (same returned dict), SET @variable statements, redefinitions with ALTER/INDEX.")
 ASSUMPTIONS = ["for corpus scripts only losslessness/order/mandatory buckets are checked (the expected bucket comes from the entity's own key, which is the code's convention)"]
 MIN_EVENTS = {"run_return": 500}
 MANDATORY = ["tables", "types", "sequences", "domains", "schemas", "ddl_properties"]
@@ -101,6 +103,18 @@ def check_case(ctx, case):
                     ctx.violation("result_depends_on_earlier_call_on_same_object", case, {"call": "run(group_by_type=%s)" % gbt, "order": list(order),
                                                                                            "observed": short(r, 200), "fresh_object": short(want[1], 200)})
                     break
+        # asking for a dump (one file for the whole result: file_path given) does not change the grouped result that is returned
+        import shutil
+        import tempfile
+        d = tempfile.mkdtemp(prefix="vf_c13d_")
+        try:
+            rd = parse(ddl, ctor, output_mode=mode, group_by_type=True, dump=True, dump_path=os.path.join(d, "out"), file_path="model.sql")
+            ctx.evaluated()
+            ctx.obs["grouped_with_dump"] += 1
+            if rd[0] != "ok" or rd[1] != grouped:
+                ctx.violation("grouped_result_changes_when_dumped", case, {"observed": short(rd, 250), "without_dump": short(grouped, 250)})
+        finally:
+            shutil.rmtree(d, ignore_errors=True)
         if "\r" not in ddl:
             vf = parse_via_file(ddl, ctor, output_mode=mode, group_by_type=True)
             ctx.evaluated()
